@@ -262,13 +262,13 @@ func represent(r *rand.Rand, v interface{}, level int) (interface{}, string) {
 		return &f, "*float64"
 	case reflect.String:
 		s := rv.String()
-		switch r.Intn(4) {
+		// ([]byte for a string column is deliberately absent: sqlgen defines
+		// driver values of different kinds as unequal, TestDriverValuesEqual)
+		switch r.Intn(3) {
 		case 0:
 			return s, "string"
 		case 1:
 			return Mood(s), "named-string"
-		case 2:
-			return []byte(s), "bytes-for-string"
 		default:
 			return &s, "*string"
 		}
@@ -285,9 +285,6 @@ func represent(r *rand.Rand, v interface{}, level int) (interface{}, string) {
 			}
 			return t, "own"
 		}
-	}
-	if b, ok := v.([]byte); ok && b != nil && r.Intn(2) == 0 {
-		return string(b), "string-for-bytes"
 	}
 	return v, "own"
 }
